@@ -236,3 +236,75 @@ ASSUMPTIONS = [
     "A-DESCR: `type.__setattr__` writes the class dictionary; attribute lookup is MRO-first descriptor lookup; descendents(cls) is the class and all its subclasses",
     "the consumers of the cache (__getitem__, __contains__, objects, values, serialization) and `_cls_parameters` (cache == mro_params when rebuilt) are covered by the bounded layer only",
 ]
+
+
+# ======================================================================================
+# Parameters.get_value_generator — `.param.values()`, repr and serialization read values through
+# this function: for a non-dynamic value it must be what attribute access shows.
+# ======================================================================================
+def get_value_generator_contract(kind):
+    """kind: 'plain' (not a Dynamic parameter) | 'unknown' (name is not a parameter)"""
+    attr_value = z3.Function("getattr_value", vm.V, vm.V, vm.V)      # what getattr(obj, name) shows (A-DESCR)
+
+    def configure(I):
+        def h_getattr(I, st, fv, args, kwargs, ctx):
+            x, n = args[0], args[1]
+            if isinstance(n, Conc):
+                from pyvc.builtins_lib import h_getattr as real
+                return real(I, st, fv, args, kwargs, ctx)
+            st.ghost["getattr_calls"] = st.ghost.get("getattr_calls", []) + [(I.term(x), I.term(n))]
+            r = attr_value(I.term(x), I.term(n))
+            I.U.well_typed(r)
+            return [(st, Sym(r))]
+        I.lib["getattr"] = h_getattr
+
+        def objects(I, st, fv, args, kwargs, ctx):
+            return [(st, st.ghost["objects_dict"])]
+        I.contracts["Parameters.objects"] = objects
+
+        dget = z3.Function("descriptor_get", vm.V, vm.V, vm.V)
+
+        def vmethod(I, st, name, selfv, args, kwargs, ctx):
+            if name == "__get__":
+                # what an arbitrary Parameter object's __get__ returns need not be what attribute
+                # access shows (the governing descriptor may be another object)
+                r = dget(I.term(selfv), I.term(args[0]))
+                I.U.well_typed(r)
+                return [(st, Sym(r))]
+            return None
+        I.lib["$value_method"] = vmethod
+
+    def setup(I, st):
+        U = I.U
+        obj = I.alloc_obj(st, "Parameterized", lazy=True, label="obj")
+        par = I.alloc_obj(st, "Parameters", lazy=False, label="param")
+        st.heap[par.oid].fields.update({"cls": ClsV("Parameterized"), "self": obj})
+        st.heap[obj.oid].fields["param"] = par
+        name = Sym(U.fresh("name"))
+        od = I.alloc_dict(st, keys=U.fresh_seq("pnames"), vals=z3.Const("pobjs", z3.ArraySort(vm.V, vm.V)))
+        st.ghost["objects_dict"] = od
+        h = st.heap[od.oid]
+        pobj = z3.Select(h.vals, name.t)
+        U.well_typed(pobj)
+        from pyvc.builtins_lib import add_hasattr_axioms, hasattr_fn
+        if kind == "plain":
+            st.pc += [z3.Contains(h.keys, z3.Unit(name.t)), vm.truthy(pobj),
+                      z3.Not(hasattr_fn("attribs")(pobj)), z3.Not(hasattr_fn("_value_is_dynamic")(pobj))]
+        else:
+            st.pc.append(z3.Not(z3.Contains(h.keys, z3.Unit(name.t))))
+        fv = I.bound_method(par, I.src.find_method("Parameters", "get_value_generator"))
+        return fv, [name], {}, {"obj": I.term(obj), "name": name.t, "attr_value": attr_value, "symbols": {}}
+
+    def post(I, info, st, oc):
+        if isinstance(oc, Raise):
+            return [("does-not-raise", z3.BoolVal(False))]
+        return [("the value reported is what getattr(obj, name) shows", I.term(oc) == info["attr_value"](info["obj"], info["name"]))]
+    return FunctionContract("%s:Parameters.get_value_generator" % MOD, PROP, setup, post, configure=configure,
+                            name="Parameters.get_value_generator[%s]" % kind)
+
+
+_c13_base = contracts
+
+
+def contracts():
+    return _c13_base() + [get_value_generator_contract("plain"), get_value_generator_contract("unknown")]
